@@ -22,7 +22,7 @@ ASSUMPTIONS = ["the pessimistic set is taken as observed (its correctness is C11
                "bands: rectangles 1e-12 rel for domination (closed form), ellipsoids 2e-6+1e-4*mag"]
 N = {"quick": 190, "thorough": 6000}
 VARS = ["PaVeBa", "PaVeBaGP-IH", "PaVeBaGP-DE", "PartialGP-rect", "PartialGP-ell", "VOGP", "EpsilonPAL", "Auer", "Auer-emp", "VOGP", "EpsilonPAL"]
-REQUIRE = {"quick": {"must_discard": 300, "must_keep": 1500, "runs": 150, "frozen_witness_scenario_reached": 2,
+REQUIRE = {"quick": {"must_discard": 300, "must_keep": 1500, "runs": 150, "vogp_ad_runs": 10, "frozen_witness_scenario_reached": 2,
                      **{f"must_discard::{v}": 5 for v in set(VARS)}, **{f"must_keep::{v}": 20 for v in set(VARS)}}}
 TIMEOUT = {"quick": 1500, "thorough": 7200}
 
@@ -71,7 +71,21 @@ def directed_frozen_witness(mon):
                 mon.count("frozen_witness_scenario_reached")
 
 
+def ad_run(mon, rng):
+    """VOGP_AD on a user-defined continuous problem (real GP): the same reference transition on tree nodes"""
+    case, order = runs.make_ad_case(rng)
+    case["max_rounds"] = 60
+    tr = runs.run_ad_case(case, order, mon)
+    mon.count("runs")
+    mon.count("vogp_ad_runs")
+    for st in tr.steps:
+        if st["crash"] is None and not st.get("after_completion"):
+            runchecks.check_discard(mon, tr, st)
+
+
 def shard(mon, tier, rng, shard_no, nshards):
+    for _ in range(1 if tier == "quick" else 6):
+        ad_run(mon, rng)
     n = max(len(VARS), N[tier] // nshards)
     if shard_no == 0:
         directed_frozen_witness(mon)
